@@ -107,7 +107,7 @@ def _install_set_order_model():
         f = _sys._getframe(1)
         from vf import setorder
 
-        if not setorder.ACTIVE or not f.f_code.co_filename.startswith("/repo/pyxform"):
+        if not setorder.ACTIVE or not f.f_code.co_filename.startswith(os.environ.get("VF_REPO", "/repo") + "/pyxform"):
             return orig_iter(self)
         items = list(orig_iter(self))
         n = len(items)
@@ -131,7 +131,7 @@ def _install_set_order_model():
 
     def trace_op(self, frame, codeobj, codenum):
         # set comprehensions in pyxform code: always use the list-backed representation
-        if frame.f_code.co_filename.startswith("/repo/pyxform"):
+        if frame.f_code.co_filename.startswith(os.environ.get("VF_REPO", "/repo") + "/pyxform"):
             frame_op_arg = oi.frame_op_arg
 
             set_offset = -(frame_op_arg(frame) + 1)
